@@ -6,7 +6,7 @@
 (* <<property id, predicate name>>.                                         *)
 (***************************************************************************)
 EXTENDS Naturals, Integers, Sequences, FiniteSets, SequencesExt,
-        FiniteSetsExt, Functions, TLC, Text, Vlq, SMap, Sem, Attr, Compose, Rope, EncM, SplitM, ReplaceM, ConcatM
+        FiniteSetsExt, Functions, TLC, Text, Vlq, SMap, Sem, Attr, Compose, Rope, EncM, SplitM, ReplaceM, ConcatM, HashM
 
 NREG == 16
 EmptyHeap == [i \in 0..(NREG - 1) |-> Nil]
@@ -413,7 +413,7 @@ C10Checks(r, st) ==
               {<<"C10", C10Name("map", r, st)>>}
          [] r.op = "stream" /\ ~r.final /\ HasPure(r, st, <<"stream", r.columns, FALSE>>) ->
               {<<"C10", C10Name("stream", r, st)>>}
-         [] r.op = "hash" -> {<<"C10", "hash_stable">>}
+         [] r.op = "hash" /\ r.h = "twox" -> {<<"C10", "hash_stable">>}
          [] OTHER -> {}
 
 C10Holds(c, r, st) ==
@@ -493,14 +493,15 @@ C14Holds(c, r, st) ==
                 LET text == st.obs[<<r.a, "source">>].t
                     ma == st.obs[<<r.a, "map", col>>].map
                     mb == st.obs[<<r.b, "map", col>>].map
-                IN IF ~AsciiConsistent(st.heap[r.a]) THEN ma = mb   \* columns are only meaningful for ASCII
+                IN IF ~AsciiConsistent(st.heap[r.a])   \* positions are only resolved for ASCII
+                     THEN SegValsOfOptMap(ma) = SegValsOfOptMap(mb)
                    ELSE IF col THEN SameFull(ByteAttrsOfOptMap(ma, text), ByteAttrsOfOptMap(mb, text))
                    ELSE LineAttrsOfOptMap(ma, text) = LineAttrsOfOptMap(mb, text)
     [] c[2] = "observer_repeatable" ->
          IF r.op = "map"
            THEN LET text == TextOf(st.heap[r.r])
                     old == st.obs[ObsKey(r)].map
-                IN IF ~AsciiConsistent(st.heap[r.r]) THEN r.out.map = old
+                IN IF ~AsciiConsistent(st.heap[r.r]) THEN SegValsOfOptMap(r.out.map) = SegValsOfOptMap(old)
                    ELSE IF r.columns
                      THEN SameCore(ByteAttrsOfOptMap(r.out.map, text), ByteAttrsOfOptMap(old, text))
                      ELSE LineAttrsOfOptMap(r.out.map, text) = LineAttrsOfOptMap(old, text)
@@ -616,6 +617,13 @@ C16Holds(c, r) ==
            /\ Len(r.out.slices.all) = (Len(x) + 2) * (Len(x) + 2)
            /\ \A i \in 1..Len(r.out.slices.all) :
                 LET s == r.out.slices.all[i]
+                IN IF SliceOK(x, s[1], s[2])
+                     THEN s[3] = <<SubSeq(x, s[1] + 1, s[2])>>
+                     ELSE s[3] = <<>>
+           \* a.., ..b, a..=b, .. and the panicking byte_slice, as half-open ranges
+           /\ Len(r.out.slices.more) = 2 * (Len(x) + 2) * (Len(x) + 2) + 2 * (Len(x) + 2) + 1
+           /\ \A i \in 1..Len(r.out.slices.more) :
+                LET s == r.out.slices.more[i]
                 IN IF SliceOK(x, s[1], s[2])
                      THEN s[3] = <<SubSeq(x, s[1] + 1, s[2])>>
                      ELSE s[3] = <<>>
@@ -750,6 +758,8 @@ Checks(r, st) ==
              THEN {<<"C12", "lines_only_first_mapped">>, <<"DRIFT", "lines_encoder_follows_EncM">>}
              ELSE {}
       [] r.op = "vlq_batch" -> {<<"C12", "vlq_digits">>}
+      [] r.op = "hash" /\ r.h = "feed" /\ HashModelled(TreeOf(r, st)) ->
+           {<<"DRIFT", "hash_feed_follows_HashM">>}
       [] OTHER -> {}
 
 -----------------------------------------------------------------------------
@@ -877,6 +887,7 @@ Holds(c, r, st) ==
              model == ConcatFinal([k \in 1..Len(r.children) |-> kid(r.children[k])])
          IN /\ model.out = strip(mine.ev)
             /\ <<model.lineOff + 1, model.colOff>> = mine.end
+    [] c = <<"DRIFT", "hash_feed_follows_HashM">> -> r.out.feed = Blank(Feed(t))
     [] c = <<"DRIFT", "schedule_replayed">> ->
          /\ r.outcome = "completed"
          /\ r.schedule_len > 0 => (r.scheduled = r.schedule_len /\ r.extra = 0)
@@ -964,6 +975,14 @@ KF(c, r, st) ==
                                                   ByteAttrsOfStream(StreamChunks(st.obs[ObsKey(r)].ev)))
                            ELSE TRUE)
               THEN "cached-beneath-replace-granularity" ELSE ""
+    [] c = <<"C20", "different_observables_different_hash">> ->
+         \* K3: the two trees feed the Hasher the same calls (HashM) and would not if a
+         \* ConcatSource fed the number of its children
+         LET ta == st.heap[r.a]
+             tb == st.heap[r.b]
+         IN IF HashModelled(ta) /\ HashModelled(tb) /\ Feed(ta) = Feed(tb)
+               /\ FeedDelimited(ta) # FeedDelimited(tb)
+              THEN "concat-children-not-delimited" ELSE ""
     [] c = <<"C13", "same_attribution_columns">> ->
          LET text == Seen(st, r.a, "source").t
              tb == st.heap[r.b]
